@@ -1211,4 +1211,59 @@ example : (FloatTok.mk true [1] [5] (some (some false, [2, 1]))).WF ∧
   refine ⟨⟨by simp, by simp, by simp, by simp, ?_, by simp⟩, by decide⟩
   intro s ds h; simp at h; obtain ⟨_, rfl⟩ := h; simp
 
+
+/-! ## 9. repeated keys: the last one wins, in a JSON object and in a Noulith dict literal alike -/
+
+theorem mapInsert_lookup_self {α : Type} (k : Str) (v : α) : ∀ m : List (Str × α), (mapInsert k v m).lookup k = some v := by
+  intro m
+  induction m with
+  | nil => simp [mapInsert, List.lookup]
+  | cons q t ih =>
+    obtain ⟨k', v'⟩ := q
+    simp only [mapInsert]
+    split
+    · simp [List.lookup]
+    · split
+      · simp [List.lookup]
+      · rename_i _ hne
+        have : (k == k') = false := by simpa using hne
+        simp [List.lookup, this, ih]
+
+theorem mapInsert_lookup_other {α : Type} (k k2 : Str) (v : α) (h : k2 ≠ k) : ∀ m : List (Str × α),
+    (mapInsert k v m).lookup k2 = m.lookup k2 := by
+  intro m
+  have hb : (k2 == k) = false := by simpa using h
+  induction m with
+  | nil => simp [mapInsert, List.lookup, hb]
+  | cons q t ih =>
+    obtain ⟨k', v'⟩ := q
+    simp only [mapInsert]
+    split
+    · simp [List.lookup, hb]
+    · split
+      · rename_i _ he; subst he; simp [List.lookup, hb]
+      · simp only [List.lookup, ih]
+
+/-- **last one wins**: after all the entries, a key holds the value of its LAST occurrence -/
+theorem dictLiteral_last_wins {α : Type} (pre post : List (Str × α)) (k : Str) (v : α)
+    (hpost : ∀ p ∈ post, p.1 ≠ k) : (dictLiteral (pre ++ (k, v) :: post)).lookup k = some v := by
+  unfold dictLiteral
+  rw [List.foldl_append, List.foldl_cons]
+  generalize hm : mapInsert k v (List.foldl (fun acc kv => mapInsert kv.1 kv.2 acc) [] pre) = m
+  have h0 : m.lookup k = some v := by rw [← hm]; exact mapInsert_lookup_self k v _
+  clear hm
+  induction post generalizing m with
+  | nil => exact h0
+  | cons q t ih =>
+    simp only [List.foldl_cons]
+    apply ih (fun p hp => hpost p (by simp [hp]))
+    rw [mapInsert_lookup_other q.1 k q.2 (fun e => hpost q (by simp) e.symm)]
+    exact h0
+
+/-- a dict literal and a JSON object written with the same members are the same map: the evaluator
+and serde_json resolve repeated keys the same way -/
+theorem dictLiteral_eq_jsonObject {α : Type} (entries : List (Str × α)) : dictLiteral entries = mapOfList entries := rfl
+
+example : dictLiteral [([97], 1), ([98], 5), ([97], 2)] = [([97], 2), ([98], 5)] := by decide
+
 end Noulith.C16
